@@ -188,6 +188,7 @@ def gen_tst(rng, n):
             ops.append([1] + offs)
         out.append(Case("tst", "str%d" % i, ops))
     out.append(Case("tst", "stbad", [[1, 10], [2, 5]]))
+    out.append(Case("tst", "stback", [[1, 10, 50], [1, 40, 20]]))    # rejected: goes backwards
     return out
 
 
